@@ -597,6 +597,12 @@ DirectProblem make_direct(const Json &d) {
 		for (auto &v : p.xF) v = r.normal() * 2;
 	} else if (mode == "negative") {
 		for (auto &v : p.xF) v = ties ? -(double)r.range(1, 3) : -r.uniform(0.1, 3);
+	} else if (mode == "at_optimum") {
+		// x already minimises the objective on F (b := A x), so no projected step reduces the residual:
+		// every block of trial steps is executed and the last (smallest) step is taken
+		for (int i = 0; i < n; i++) p.x[(size_t)p.F[(size_t)i]] = ties ? (double)r.range(1, 3) : r.uniform(0.5, 3);
+		for (int i = 0; i < n; i++) { double sacc = 0; for (int j = 0; j < n; j++) sacc += p.A[(size_t)i * n + j] * p.x[(size_t)p.F[(size_t)j]]; p.b[(size_t)i] = sacc; }
+		for (auto &v : p.xF) v = ties ? -(double)r.range(1, 3) : -r.uniform(0.1, 3);
 	} else { // "uphill": the unconstrained point is worse everywhere, only the last step is taken
 		for (int i = 0; i < n; i++) p.xF[(size_t)i] = -50 * r.uniform(0.5, 1.5);
 	}
@@ -782,6 +788,13 @@ struct SchedHarness : Harness {
 			prob["xf_mode"] = Json(modes[gen.below(5)]);
 			prob["neg"] = Json(1 + (int)gen.below((uint64_t)n));
 			prob["ties"] = Json(gen.chance(0.2));
+			// the small configurations of C12's quantifier: several fruitless blocks need many trial steps and a
+			// search in which the long steps do not reduce the residual
+			if (workers <= 3 && gen.chance(0.35)) {
+				prob["xf_mode"] = Json("at_optimum");
+				int nn = 1 + (int)gen.below((uint64_t)(3 * workers - 2));     // n_alpha = n+2 <= 3*workers: at most three blocks, all executed
+				prob["n"] = Json(nn); prob["neg"] = Json(nn);
+			}
 			est_len = 20 + 12 * workers;
 		} else if (depth == "block3" || depth == "plain") {
 			int n = 2 + (int)gen.below(9);
